@@ -35,6 +35,9 @@ func c09Uses(v, target ssa.Value, depth int) bool {
 	if v == target {
 		return true
 	}
+	if _, isCall := v.(*ssa.Call); isCall && c09PureCallEq(v, target, 0) {
+		return true // another call of the same pure accessor on the same value
+	}
 	switch u := v.(type) {
 	case *ssa.UnOp:
 		return c09Uses(u.X, target, depth+1)
@@ -726,6 +729,33 @@ func c09R3IsTagged(c *Ctx, R3 string, h *c09Helpers) {
 		})
 	}
 	if len(selfT) == 0 {
+		// alternative shape: the (cloned) tag set has the digest self-reference removed, then any remaining element counts
+		var dels []ssa.Instruction
+		AllInstrs(f, func(in ssa.Instruction) {
+			if op, sv, elem := c09SetOp(in); op == "del" && set[sv] && c09DigestString(desc, elem) {
+				dels = append(dels, in)
+			}
+		})
+		if len(dels) > 0 {
+			ok, why := true, ""
+			for _, a := range RetAtoms(f, 0) {
+				alts, known := c09LenCompare(a.Val, set)
+				if !known {
+					c.Undecided(R3, key, a.Ret.Pos(), "result "+describe(a.Val)+" is not a comparison of len(tagSet) with a constant")
+					return
+				}
+				for _, alt := range alts {
+					if alt.thr != 1 {
+						ok, why = false, fmt.Sprintf("after removing the digest self-reference the result is len(tagSet) >= %d, expected >= 1", alt.thr)
+					}
+				}
+				if !MustPass(a.Ret, newCut().Instr(dels...)) {
+					ok, why = false, "a result is computed without the digest self-reference having been removed from the set"
+				}
+			}
+			c.Check(R3, key, f.Pos(), ok, ifelse(ok, "tagged iff the tag set, with the descriptor's own digest removed, is not empty", why))
+			return
+		}
 		c.Violation(R3, key, f.Pos(), "isTagged does not test whether the tag set contains the descriptor's own digest: every manifest pushed through Store.Push is tagged by its digest, so every dangling manifest would count as tagged and auto-GC would never remove one (or, if the set size is ignored, would remove tagged ones)")
 		return
 	}
@@ -1031,6 +1061,30 @@ func c09R4(c *Ctx) {
 					usesName = usesName || c09Uses(pv, name, 0)
 					usesAlg = usesAlg || c09Uses(pv, alg, 0)
 				}
+				if !usesAlg {
+					// the directory may come in as a parameter of the sweeping helper: it must be built, at every
+					// call site, from the value the algorithm was taken from
+					algOs, okA := c09Origins(c.P, alg, 2, nil)
+					for _, pv := range pathVals {
+						for _, prm := range T.Params {
+							if !c09Uses(pv, prm, 0) {
+								continue
+							}
+							dirOs, okD := c09Origins(c.P, prm, 2, nil)
+							all := okA && okD && len(dirOs) > 0 && len(algOs) > 0 && !(len(dirOs) == 1 && dirOs[0] == ssa.Value(prm))
+							for _, d := range dirOs {
+								hit := false
+								for _, a := range algOs {
+									if c09Uses(d, strip(a), 0) {
+										hit = true
+									}
+								}
+								all = all && hit
+							}
+							usesAlg = usesAlg || all
+						}
+					}
+				}
 				ok = usesName && usesAlg
 				c.Check(R4, gn+"|removed-file-is-the-tested-digest"+sfx, rm.Pos(), ok, ifelse(ok, "the removed path is built from the algorithm directory and entry name whose digest was tested", "the removed path is not derived from the entry whose digest was tested"))
 				ok = c09GuardedUp(c.P, atT, c09Vals{"alg": alg}, func(fn *ssa.Function, v c09Vals) []Edge {
@@ -1041,7 +1095,7 @@ func c09R4(c *Ctx) {
 					for _, i := range Ifs(fn) {
 						cond, t, _ := ifEdges(i)
 						call, isCall := cond.(*ssa.Call)
-						if !isCall || len(call.Call.Args) != 1 || !c09ValEq(strip(call.Call.Args[0]), v["alg"]) {
+						if !isCall || len(call.Call.Args) != 1 || !c09ValEq(strip(call.Call.Args[0]), strip(v["alg"])) {
 							continue
 						}
 						if g := StaticCallee(call); g != nil && inModule(g) && len(StringConstsComparedWith(g, func(ssa.Value) bool { return true })) > 0 {
